@@ -408,6 +408,12 @@ func c08Execute(t *testing.T, p c08Prog, s *vsync.Sched, tmp string) (*c08Run, s
 						ds = append(ds, m.Data)
 					}
 					ev.ResData = strings.Join(ds, "|")
+				case "wake":
+					// a wake-up without a new batch and without cancelling anybody (InterruptGetNext is broadcast to
+					// all readers whenever any request is cancelled)
+					ev.Call = r.tick()
+					o.InterruptGetNext()
+					ev.Ret = r.tick()
 				case "cancel":
 					ev.Call = r.tick()
 					cancelFns[op.Ctx]()
@@ -483,6 +489,16 @@ func c08Programs(thorough bool) []c08Prog {
 			}
 		}
 		compactors = append(compactors, []c08Op{{Kind: "del", Id: 5}}, []c08Op{{Kind: "del", Id: 99}})
+		if len(init) > 0 {
+			// the reader is parked behind the tail, the tail is deleted, the reader is woken without a new batch
+			// (somebody else's request was cancelled) while a batch arrives
+			tail := init[len(init)-1]
+			for _, rd := range [][]c08Op{{{Kind: "next", Id: tail}}} {
+				ps = append(ps, c08Prog{Name: "reader||delete-tail+wake||adder", Initial: init, Threads: [][]c08Op{rd, {{Kind: "del", Id: tail}, {Kind: "wake"}}, {{Kind: "add", Id: next1}}}})
+				ps = append(ps, c08Prog{Name: "reader||delete-tail+wake+add", Initial: init, Threads: [][]c08Op{rd, {{Kind: "del", Id: tail}, {Kind: "wake"}, {Kind: "add", Id: next1}}}})
+				ps = append(ps, c08Prog{Name: "reader||wake||adder", Initial: init, Threads: [][]c08Op{rd, {{Kind: "wake"}, {Kind: "wake"}}, {{Kind: "add", Id: next1}}}})
+			}
+		}
 		for _, x := range xs {
 			if x > newest {
 				continue
